@@ -15,34 +15,30 @@
  */
 extern void mpt_gnode_relink(MPT_STRUCT(node) *node)
 {
-	MPT_STRUCT(node) *start;
+	MPT_STRUCT(node) *start, *tmp;
 	
 	if (!(start = node)) {
 		errno = EFAULT;
 		return;
 	}
-	
-	if (node->children) {
-		node->children->parent = node;
-	}
-	node = node->children;
-	
-	while (node && node != start) {
-		if (node->children) {
-			node->children->parent = node;
-			if (node->next) {
-				node->next->parent = node->parent;
-				node->next->prev = node;
-			}
-			node = node->children;
+	while (1) {
+		/* first child: visit its subtree before its successors */
+		if ((tmp = node->children)) {
+			tmp->parent = node;
+			tmp->prev = 0;
+			node = tmp;
+			continue;
 		}
-		if (node->next) {
-			node->next->parent = node->parent;
-			node->next->prev = node;
-			node = node->next;
+		/* end of list: back to nearest level with a successor, stay below start */
+		while (node != start && !node->next) {
+			node = node->parent;
 		}
-		else {
-			node = node->parent->next;
+		if (node == start) {
+			return;
 		}
+		tmp = node->next;
+		tmp->parent = node->parent;
+		tmp->prev = node;
+		node = tmp;
 	}
 }
